@@ -357,6 +357,7 @@ func run(rc *kernel.RunCtx) {
 		name     string
 		ctx      context.Context
 		shared   bool // the record value is handed out as it is, see sharedRecs
+		force    bool // hand the record to Handle although Enabled says no (what a wrapper with a level of its own, or a fan-out, does)
 		newRoot  bool // construct a handler for the same writer before the step and make it the own one
 		fam      int  // family of the handler the record is handled through
 	}
@@ -471,6 +472,7 @@ func run(rc *kernel.RunCtx) {
 			if reentrant && !st.shared && tp.Bool(1, 3) {
 				r.AddAttrs(slog.Int("reenter", ti))
 			}
+			st.force = tp.Bool(1, 4)
 			st.rec = r
 			st.ctx = ctx
 			if tp.Bool(1, 4) {
@@ -582,7 +584,12 @@ func run(rc *kernel.RunCtx) {
 					return
 				}
 				if !enabled {
-					continue
+					// "Every record handled": Handle does not filter; the level
+					// is what Enabled is for.
+					if !st.force {
+						continue
+					}
+					k.Tell("forced", func() { rc.Stats.Probe("handled-although-not-enabled") })
 				}
 				// Each Handle call gets its own record, as slog.Logger does,
 				// unless the record is one that is handed out repeatedly.
